@@ -383,7 +383,9 @@ class GeckoAsyncSpa(Observable):
         if self._protocol is not None:
             self._protocol.disconnect()
             self._protocol = None
-        self._transport = None
+        if self._transport is not None:
+            self._transport.close()
+            self._transport = None
         self.unwatch_all()
 
     @property
